@@ -418,7 +418,7 @@ func scenariosC08() []scenario {
 		{name: "basic-autoforget", seed: nil, lcs: []lcSpec{{id: "a", basic: true, autoForget: 8 * time.Second}, {id: "b", basic: true}}, actions: []action{{at: 2 * time.Second, kind: "stop", who: "b"}}, horizon: 22 * time.Second},
 		{name: "mixed", lcs: []lcSpec{{id: "a", joinAfter: 1500 * time.Millisecond}, {id: "b", basic: true}}, horizon: 14 * time.Second},
 		{name: "three-joiners", lcs: []lcSpec{{id: "a", joinAfter: 1500 * time.Millisecond}, {id: "b", joinAfter: 1500 * time.Millisecond}, {id: "c", basic: true}}, horizon: 9 * time.Second},
-		{name: "no-heartbeat", lcs: []lcSpec{{id: "a", noHeartbeat: true, joinAfter: 1500 * time.Millisecond}, {id: "b", basic: true, noHeartbeat: true}}, horizon: 9 * time.Second},
+		{name: "no-heartbeat", lcs: []lcSpec{{id: "a", joinAfter: 1500 * time.Millisecond}, {id: "b", basic: true, noHeartbeat: true}}, actions: []action{{at: 6 * time.Second, kind: "stop", who: "b"}}, horizon: 12 * time.Second},
 		{name: "operator-edits-entry", lcs: []lcSpec{{id: "a"}}, actions: []action{{at: 2 * time.Second, kind: "external-edit", who: "a"}, {at: 3 * time.Second, kind: "ready", who: "a"}}, horizon: 12 * time.Second},
 	}
 	return scs
